@@ -161,8 +161,8 @@ func checkC11(r *core.Run) {
 			if t == nil || len(t.Args) != 2 || t.Args[1].String() == "nil" {
 				continue
 			}
-			key := core.Key("CAP-release", "ShardRelease(non-nil) in "+r.P.Name(f), fmt.Sprint(i+1))
-			switch r.P.Name(f) {
+			key := core.Key("CAP-release", "ShardRelease(non-nil) in "+r.KeyName(f), fmt.Sprint(i+1))
+			switch r.KeyName(f) {
 			case "sao/keeper.Keeper.HandleExpiredShard", "sao/keeper.msgServer.Cancel", "sao/keeper.msgServer.Complete", "model/keeper.Keeper.TerminateOrder":
 				r.Discharge("CAP-release", key, r.P.Pos(c.Pos()), "tabled release site")
 			default:
@@ -258,8 +258,17 @@ func checkC11(r *core.Run) {
 			r.Violate("T-lifetime", key, r.P.FuncPos(fn), "on completion the data model is not extended to the end height scheduled for the shard: the model can be deleted while a paid shard of it remains")
 		}
 	}
-	if fn := r.Func("T-lifetime", "sao/keeper.msgServer.Renew"); fn != nil {
-		ext := blocksCalling(r, fn, fExtendMeta)
+	if anchor := r.Func("T-lifetime", "sao/keeper.msgServer.Renew"); anchor != nil {
+		// the per-data-id body may have been extracted into a helper: the clause is evaluated in the function that
+		// persists the shard (the end of the data-id iteration is then that helper's return)
+		fn := anchor
+		for _, g := range transparentClosure(r, anchor) {
+			if len(callsIn(r, g, "order/keeper.Keeper.SetShard")) > 0 {
+				fn = g
+				break
+			}
+		}
+		ext := blocksCallingDeep(r, fn, fExtendMeta, 0)
 		bad := false
 		n := 0
 		for _, c := range callsIn(r, fn, "order/keeper.Keeper.SetShard") {
@@ -685,7 +694,7 @@ func checkC13(r *core.Run) {
 			continue
 		}
 		key := core.Key("T-alias", p.fn, "model and alias "+p.what+" together")
-		ab, bb := blocksCalling(r, fn, p.a), blocksCalling(r, fn, p.b)
+		ab, bb := blocksCallingDeep(r, fn, p.a, 0), blocksCallingDeep(r, fn, p.b, 0)
 		ok := len(ab) > 0 && len(bb) > 0
 		for blk := range ab {
 			if !bb[blk] && forwardAvoid(blk, bb, nil, isReturnBlock) != nil && forwardAvoid(fn.Blocks[0], bb, nil, func(x *ssa.BasicBlock) bool { return x == blk }) != nil {
@@ -1024,15 +1033,24 @@ func ruleReplacePaired(r *core.Run) {
 func ruleTakeover(r *core.Run) {
 	const id = "T-takeover"
 	fnName := "sao/keeper.msgServer.Complete"
-	fn := r.Func(id, fnName)
-	if fn == nil {
+	anchor := r.Func(id, fnName)
+	if anchor == nil {
 		return
 	}
-	res := r.Resolver(fn)
-	mig := callsIn(r, fn, "market/keeper.Keeper.Migrate")
-	if len(mig) == 0 {
-		mig = callsIn(r, fn, "sao/types.MarketKeeper.Migrate")
+	// the hand-over may live in a helper extracted from Complete: the rule is evaluated where the call is
+	fn := anchor
+	var mig []ssa.CallInstruction
+	for _, g := range transparentClosure(r, anchor) {
+		m := callsIn(r, g, "market/keeper.Keeper.Migrate")
+		if len(m) == 0 {
+			m = callsIn(r, g, "sao/types.MarketKeeper.Migrate")
+		}
+		if len(m) > 0 {
+			fn, mig = g, m
+			break
+		}
 	}
+	res := r.Resolver(fn)
 	if len(mig) == 0 {
 		r.Undecide(id, core.Key(id, fnName, "hand-over"), r.P.FuncPos(fn), "vacuous: no call of market Migrate in Complete")
 		return
